@@ -1,9 +1,11 @@
 package main
 
 import (
+	"bufio"
 	"bytes"
 	"errors"
 	"fmt"
+	"strings"
 
 	"verif/simrt"
 	"zombiezen.com/go/commonmark"
@@ -27,6 +29,7 @@ type sinkObs struct {
 	HealthyLen int
 	Fired      bool
 	Skipped    bool
+	StdWriters int
 }
 
 // checkC20 evaluates the first sentence of C20 for one document and one
@@ -61,6 +64,42 @@ func checkC20(s *Scenario) (*Failure, *sinkObs) {
 				_ = fl
 			}
 		}
+		// writers of standard-library types (a callee may type-switch on
+		// well-known concrete writers or probe them for fast paths)
+		for _, std := range []string{"bytes.Buffer", "strings.Builder", "bufio.Writer"} {
+			var got []byte
+			var err error
+			switch std {
+			case "bytes.Buffer":
+				bb := bytes.NewBuffer(make([]byte, 0, len(hw.Buf)%61))
+				bb.WriteString("pre|") // content the caller wrote before must stay
+				err = formatBlocks(bb, blocks)
+				got = bb.Bytes()
+				if !bytes.HasPrefix(got, []byte("pre|")) {
+					return &Failure{Check: "determinism", Observed: "Format into a *bytes.Buffer disturbed what the buffer already held"}, obs
+				}
+				got = got[4:]
+			case "strings.Builder":
+				var sb strings.Builder
+				err = formatBlocks(&sb, blocks)
+				got = []byte(sb.String())
+			case "bufio.Writer":
+				under, uw := newSimWriter(&WriterScn{Flavour: "writer", FailAt: -1, ByteBudget: -1})
+				bw := bufio.NewWriterSize(uw, 16+len(hw.Buf)%300)
+				err = formatBlocks(bw, blocks)
+				if err == nil {
+					err = bw.Flush() // the caller's job, as with any bufio.Writer
+				}
+				got = under.Buf
+			}
+			if err != nil {
+				return &Failure{Check: "healthy-err", Observed: fmt.Sprintf("Format into a %s returned %v", std, err)}, obs
+			}
+			if !bytes.Equal(got, hw.Buf) {
+				return &Failure{Check: "determinism", Observed: fmt.Sprintf("Format into a %s: %s", std, firstDiff(string(hw.Buf), string(got)))}, obs
+			}
+		}
+		obs.StdWriters = 3
 		if after := snapAll(blocks); after != before {
 			return &Failure{Check: "tree-touched", Observed: firstDiff(before, after)}, obs
 		}
